@@ -240,6 +240,11 @@ def resolve_meta(spec, shared: dict):
     kind = spec[0]
     if kind == "empty":
         return {}, {}
+    if kind == "big":
+        # a long, possibly non-ASCII text: the shard list holding it is
+        # larger than one 128 KiB hashing block, in bytes more than in chars
+        val = {"k": "big", "t": chr(spec[2]) * spec[1]}
+        return dict(val), dict(val)
     val = META_VALUES[spec[1] % len(META_VALUES)]
     if kind == "val":
         return copy.deepcopy(val), copy.deepcopy(val)
